@@ -2016,6 +2016,14 @@ func createRoutingKey(routingKeyInfo *routingKeyInfo, values []interface{}) ([]b
 		return nil, nil
 	}
 
+	for _, index := range routingKeyInfo.indexes {
+		if index < 0 || index >= len(values) {
+			// fewer values are bound than the statement has markers: executing the
+			// statement reports this too, do not index out of range here
+			return nil, fmt.Errorf("gocql: partition key marker %d has no bound value, got %d values", index, len(values))
+		}
+	}
+
 	if len(routingKeyInfo.indexes) == 1 {
 		// single column routing key
 		routingKey, err := Marshal(
